@@ -11,6 +11,8 @@
 
 mod common;
 mod credit;
+mod peer;
+mod recvcredit;
 mod session;
 
 use common::Opts;
@@ -60,6 +62,7 @@ fn main() {
     match args[1].as_str() {
         "session" => session::main(&opts),
         "credit" => credit::main(&opts),
+        "recvcredit" => recvcredit::main(&opts),
         other => {
             eprintln!("unknown module {}", other);
             std::process::exit(64);
